@@ -207,11 +207,28 @@ def run(case, ctx):
                 if res["status"] == "ill-conditioned":
                     scale /= 2
             status = res["status"]
+            # the same model called the way users call it: as an argument of eqx.filter_jit (a pytree round trip of the
+            # model, sorted dict keys, traced execution); its output must be related by g to the eager output
+            jit_note = "not-run"
+            if status == "held" and (case["i"] % 3 == 0 if ctx["tier"] == "thorough" else cfg["cls"] in ("ConvBlock", "ConvBlockPre")):
+                import equinox as eqx
+
+                g = G[int(rng.integers(1, len(G)))]
+                yj = eqx.filter_jit(lambda m, z: m(z)[0])(model, mlgen.act_mi(x, g))
+                evals += 1
+                S = mlgen.trace_scale(x, *[probes.blocks(yj)])
+                tau_case = max(TAU_E, 100 * (res["kappa"] or 1.0) * 1.2e-7)
+                d, msg = mlgen.compare(yj, mlgen.act_blocks(res["Y"], D, g, 1), 1, S)
+                jit_note = "held"
+                if d >= 10 * tau_case:
+                    res["viols"].append(viol("network-under-jit-not-equivariant", f"filter_jit(model)(g.x) != g.model(x) (eager): defect {d:.3g} ({msg}) for g={g.tolist()}; eager equivariance held", g=g.tolist()))
+                    status = res["status"] = "violated"
+                    jit_note = "violated"
     except Exception as e:
         import traceback
 
         return result(key, [viol(f"network-exception-{type(e).__name__}", f"{type(e).__name__}: {str(e)[:300]}; {key}; {traceback.format_exc()[-500:]}")], True, evals=evals, hist={"cls": cfg["cls"], "D": D})
-    hist = {"cls": cfg["cls"], "D": D, "activation": str(cfg["activation"]), "norm": cfg["norm"], "bias": str(cfg["bias"]), "layers": sorted(set(res["layers"])), "pseudo": any(t[1] == 1 for t, _ in mlgen.sig_of(cfg["in_sig"]) + mlgen.sig_of(cfg["out_sig"]))}
+    hist = {"cls": cfg["cls"], "D": D, "jit_variant": jit_note if "jit_note" in dir() else "not-run", "activation": str(cfg["activation"]), "norm": cfg["norm"], "bias": str(cfg["bias"]), "layers": sorted(set(res["layers"])), "pseudo": any(t[1] == 1 for t, _ in mlgen.sig_of(cfg["in_sig"]) + mlgen.sig_of(cfg["out_sig"]))}
     if status not in ("held", "violated"):
         return {"status": "inconclusive", "key": str(key), "nontrivial": False, "why": f"{status} after 4 draws (kappa={res.get('kappa')}, e2e={res.get('e2e')})", "evals": evals, "hist": hist}
     layers = res["layers"]
